@@ -97,6 +97,63 @@ def explore(algo, spec, schedule, part):
         part.sample({"algo": algo, "spec": spec, "schedule": schedule, "states": st["states"], "traces": st["traces"]}, cap=2)
 
 
+def run_fast(algo, spec, schedule, part):
+    """One canonical-schedule execution without snapshots (wide table sweeps)."""
+    name, params = algo_params(algo)
+    world, shared, _ = ls_common.build_world(spec, name, params)
+    sp = MsSpec(algo, spec, 2 * diameter(spec) + SAME_COUNT + 2)
+
+    def report(key, what, w, hist):
+        part.violation(key, what, {"algo": algo, "spec": spec, "schedule": schedule, "history": netx.unroll(hist)})
+
+    st = netx.run_single(world, sp, schedule, report)
+    part.count("transitions", st["steps"])
+    part.count("states", st["steps"] + 1)
+    part.count("traces")
+    part.count("evaluations")
+    part.count("sweep_runs_" + algo)
+    if not st["ended"]:
+        part.count("capped_instances")
+    part.outcome((algo, repr(spec), schedule, repr(sorted((n, c.current_value) for n, c in world.comps.items() if n in spec["vars"]))))
+    part.nontriv((algo, repr(spec)))
+
+
+_BASE_MENU = gen.T3_BIN + [[[0, 3], [1, 2]], [[2, 1], [0, 5]], [[0, 2], [5, 5]], [[5, 3], [1, 1]], [[3, 3], [5, 4]]]
+SWEEP_MENU = []
+for _t in _BASE_MENU:  # both orientations: which end of the edge indexes the rows matters along a chain
+    for _o in (_t, [list(r) for r in zip(*_t)]):
+        if _o not in SWEEP_MENU:
+            SWEEP_MENU.append(_o)
+
+
+def sweep_instances(tier):
+    """4-variable trees (chain and star) with EVERY triple of tables of a 17-table menu (11 tables and their transposes; incl. tables with a dominated row or a flat
+    row: a factor's costs then change late and in one direction only), unique optimum; thorough adds the 5-chain over the first 7 tables."""
+    out = []
+    names = [f"v{i}" for i in range(4)]
+    shapes = {"chain4": [("v0", "v1"), ("v1", "v2"), ("v2", "v3")], "star4": [("v0", "v1"), ("v0", "v2"), ("v0", "v3")]}
+    for mode in ("min", "max"):
+        for sname, edges in shapes.items():
+            for tabs in itertools.product(SWEEP_MENU, repeat=3):
+                spec = {"vars": {v: [0, 1] for v in names}, "cons": [{"name": f"c{i}", "scope": list(e), "table": t} for i, (e, t) in enumerate(zip(edges, tabs))], "mode": mode}
+                if unique(spec):
+                    out.append(spec)
+        if tier != "quick":
+            n5 = [f"v{i}" for i in range(5)]
+            for tabs in itertools.product(SWEEP_MENU[2:9], repeat=4):
+                spec = {"vars": {v: [0, 1] for v in n5}, "cons": [{"name": f"c{i}", "scope": [n5[i], n5[i + 1]], "table": t} for i, t in enumerate(tabs)], "mode": mode}
+                if unique(spec):
+                    out.append(spec)
+    return out
+
+
+def sweep_shard(items):
+    part = Part()
+    for algo, spec, sched in items:
+        run_fast(algo, spec, sched, part)
+    return part
+
+
 def unique(spec):
     opt, args = gen.brute_force(spec)
     return len(args) == 1
@@ -176,13 +233,23 @@ def run(ctx):
         "factors thorough), 3-valued pair, chains of 3-5 (6) variables and stars over an 8-table menu incl. +100 offsets, a forest, a ternary "
         f"factor; min and max): pairs (and a slice of the 3-chains, thorough) under ALL start orders and delivery interleavings, the others under "
         f"the canonical schedules {CANON}; synchronous Max-Sum up to a horizon of 2*(#nodes)+SAME_COUNT+2 rounds, A-Max-Sum until quiescence. "
-        "Oracle at every maximal path: the selected assignment is the unique optimum, no handler raised. evaluations = explorations"
+        "Plus a wide sweep: 4-variable chain and star with EVERY triple of tables of a 17-table menu (11 tables + transposes; thorough: the 5-chain over 7 tables), one "
+        "execution each of synchronous Max-Sum (schedule first) and A-Max-Sum leafs_vars (first, last), run in place without snapshots. "
+        "Oracle at every maximal path: the selected assignment is the unique optimum, no handler raised. evaluations = explorations + sweep runs"
     )
     ctx.assumptions = ["Network model: one FIFO channel per ordered pair of computations.", "State merging by canonical form.",
                        "Canonical-schedule runs cover one delivery order each (first/last/alternating enabled event), not all interleavings."]
     jobs.sort(key=lambda j: -(len(j[1]["vars"]) + (5 if j[2] == "all" else 0)))
     n = 64
     ctx.pmap(shard, [jobs[i::n] for i in range(n)])
+    # wide table sweep, one canonical execution per (instance, algorithm, schedule), no snapshots
+    sweep = []
+    for spec in sweep_instances(ctx.tier):
+        sweep.append(("maxsum", spec, "first"))
+        for sched in ("first", "last"):
+            sweep.append(("amaxsum:leafs_vars", spec, sched))
+    ctx.extra["sweep_instances_with_unique_optimum"] = len(sweep) // 3
+    ctx.pmap(sweep_shard, [sweep[i::n] for i in range(n)])
     if ctx.part.counters.get("capped_instances"):
         ctx.exhaustive = False
         ctx.rule += f" CAP: {ctx.part.counters['capped_instances']} exploration(s) hit the 400000-state cap."
